@@ -18,6 +18,15 @@ four necessary conditions whose breach makes the fast path answer differently fr
       (compute_columnar_aggregate) runs only on the "op is not Count" side of a test on the aggregate's op, and the Count
       side reaches the row count; in extract_aggregates a resolved column index is put into AggregateSource::Column only
       on the "op is not Count" side ((Count, Column(_)) is the specification of COUNT(*));
+ (R5') the COUNT(*) specification (Count, Column(0)) is emitted only for an empty argument list, `*`, or a column named
+      `*`: a construction of AggregateSource::Column(0) that is decided by any other variant of the argument expression
+      (a literal: COUNT(NULL) must count nothing) is a finding;
+ (R6) the predicate extractors' operator tables: `column op literal` maps each comparison operator to the predicate of the
+      same name, `literal op column` to the mirrored one (< <-> >, <= <-> >=, = stays); both extractors, both orientations;
+ (R7) the two places where the integer / float SIMD kernels flush a batch (inside the loop when the batch is full, after
+      the loop for the rest) treat every AggregateOp alike: the same SIMD helper (sum / min / max / none) per variant;
+ (R8) NULLs are not counted: in compute_sum the arm of SqlValue::Null does not reach the increment of the counter that
+      decides between "sum" and NULL within the same iteration;
  (R4) MIN/MAX comparator agreement: compute_min / compute_max (and the single-pass variant) order values with the
       row accumulator's comparator (grouping::aggregates::compare_sql_values), not with a comparator of their own.
 The NULL clauses of the property are decided under C06 (rule C06.null: the columnar predicate never matches NULL;
@@ -254,6 +263,10 @@ def run(ctx):
                         'comparator does not know (VARCHAR, DATE, TIMESTAMP, BOOLEAN ...) give a different MIN/MAX than the general path', f.loc)
 
     _count_rule(ctx)
+    _count_star_guard(ctx)
+    _mirror_tables(ctx)
+    _flush_sites(ctx)
+    _null_not_counted(ctx)
 
 
 def _count_rule(ctx):
@@ -305,6 +318,147 @@ def _count_rule(ctx):
     if bad:
         ctx.finding('R5/extract_aggregates', 'extract_aggregates specifies COUNT(column) as (Count, Column(index)), which is how COUNT(*) is specified: the '
                     'NULLs of the column are counted', f'{ea.file}:{ea.blocks[bad[0]]["s"][0].get("l", ea.line)}')
+
+
+def _variant_names(prog, adt_suffix):
+    a = [x for x in prog.adts if x.endswith(adt_suffix)]
+    if len(a) != 1:
+        return None, {}
+    return a[0], {int(v.get('discr', i)): v['name'] for i, v in enumerate(prog.adt(a[0])['variants'])}
+
+
+def _count_star_guard(ctx):
+    prog = ctx.prog
+    ctx.rule("C03.R5'", 'extract_aggregates: AggregateSource::Column(0) (the COUNT(*) specification) is constructed only under is_empty(args) or an argument that is '
+             'Expression::Wildcard / Expression::ColumnRef')
+    ea = ctx.fn(COL + 'aggregate::extract_aggregates')
+    se = Sym(ea)
+    _adt, names = _variant_names(prog, 'vibesql_ast::expression::Expression')
+    ctx.require(names, 'Expression ADT not found')
+    n = 0; bad = []
+    for bi, b in enumerate(ea.blocks):
+        for st in b['s']:
+            if 'd' in st and st['v']['r'] == 'agg' and str(st['v'].get('adt', '')).endswith('AggregateSource') and st['v'].get('variant') == 'Column' \
+                    and se.op(st['v']['ops'][0]) == 'const(0)':
+                n += 1
+                conds = shared.deciding_conditions(ea, bi, se)
+                via = set()
+                for c, v in conds:
+                    if re.match(r'^discr\(.*args.*\)$', c) and 'AggregateFunction.args' in c and not c.endswith('.args)'):
+                        for x in v.split('|'):
+                            if x.isdigit():
+                                via.add(names.get(int(x), x))
+                    if c.startswith('is_empty(') and 'args' in c and v != '0':
+                        via.add('<no argument>')
+                if not via or not via <= {'Wildcard', 'ColumnRef', '<no argument>'}:
+                    bad.append((bi, sorted(via)))
+                ctx.instance(f"R5'/count-star@{n}", {'rule': "C03.R5'", 'decided_by': sorted(via)})
+    ctx.floor("C03.R5' constructions of the COUNT(*) specification", n, 3)
+    if bad:
+        ctx.finding("R5'/count-star-spec", f'extract_aggregates emits the COUNT(*) specification for an argument of kind {bad[0][1] or "?"}: COUNT(<that>) then counts every '
+                    'row (COUNT(NULL) must be 0)', f'{ea.file}:{ea.blocks[bad[0][0]]["s"][0].get("l", ea.line)}')
+
+
+MIRROR = {'LessThan': 'GreaterThan', 'GreaterThan': 'LessThan', 'LessThanOrEqual': 'GreaterThanOrEqual', 'GreaterThanOrEqual': 'LessThanOrEqual', 'Equal': 'Equal'}
+
+
+def _mirror_tables(ctx):
+    prog = ctx.prog
+    ctx.rule('C03.R6', 'predicate extractors of the columnar filter: with the literal on the right the operator maps to the predicate of the same name, with the literal '
+             'on the left to the mirrored predicate')
+    CP = COL + 'filter::ColumnPredicate'
+    _a, ops = _variant_names(prog, 'vibesql_ast::operators::BinaryOperator')
+    ctx.require(ops, 'BinaryOperator ADT not found')
+    n = 0
+    for f in prog.fns.values():
+        if f.unit != 'vibesql_executor' or shared.is_test(f) or f.is_closure() or not f.nice.startswith(COL + 'filter::extract_'):
+            continue
+        s = None
+        for bi, b in enumerate(f.blocks):
+            for st in b['s']:
+                if not ('d' in st and st['v']['r'] == 'agg' and str(st['v'].get('adt', '')) == CP):
+                    continue
+                s = s or Sym(f)
+                var = st['v'].get('variant')
+                val = s.op(st['v']['ops'][-1])
+                side = 'right' if '.right@Literal' in val else 'left' if '.left@Literal' in val else None
+                if side is None or var not in MIRROR:
+                    continue
+                opn = None
+                for c, v in shared.deciding_conditions(f, bi, s):
+                    if re.match(r'^discr\(.*BinaryOp\.op\)$', c) and v.isdigit():
+                        opn = ops.get(int(v))
+                if opn is None:
+                    continue
+                n += 1
+                want = opn if side == 'right' else MIRROR.get(opn)
+                ok = var == want
+                ctx.instance(f'R6/{f.nice.rsplit("::", 1)[1]}/{side}/{opn}', {'rule': 'C03.R6', 'fn': f.nice, 'literal_on_the': side, 'operator': opn, 'predicate': var, 'ok': ok})
+                if not ok:
+                    ctx.finding(f'R6/{f.nice.rsplit("::", 1)[1]}/{side}/{opn}', f'{f.nice}: with the literal on the {side} the operator {opn} becomes the predicate {var} (expected '
+                                f'{want}): `5 > a` is then evaluated as `a <= 5` on the columnar path', f'{f.file}:{st.get("l", f.line)}')
+    ctx.floor('C03.R6 operator table entries', n, 20)
+
+
+def _flush_sites(ctx):
+    prog = ctx.prog
+    ctx.rule('C03.R7', 'simd_aggregate_i64 / simd_aggregate_f64: every match over AggregateOp whose arms call the SIMD batch helpers maps each variant to the same helper')
+    AO = [a for a in prog.adts if a.endswith('columnar::aggregate::AggregateOp')]
+    ctx.require(len(AO) == 1, 'AggregateOp not found')
+    n = 0
+    for nm in ('simd_aggregate_i64', 'simd_aggregate_f64'):
+        f = ctx.fn(COL + 'simd_aggregate::' + nm)
+        g = cfg(f)
+        tables = []
+        for sw in enum_switches(prog, f, AO[0]):
+            targets = list(sw['arms'].values()) + ([sw['otherwise']] if sw['otherwise'] is not None else [])
+            reaches = {tb: g.reach_from([tb], removed={sw['block']}) for tb in set(targets)}
+            common = set.intersection(*reaches.values()) if reaches else set()
+            row = {}
+            for var, tb in sw['arms'].items():
+                reg = (reaches[tb] - common) | {tb}
+                hs = sorted({(callee_name(f.blocks[b]['t']) or '').rsplit('::', 1)[1] for b in reg if f.blocks[b]['t']['k'] == 'call'
+                             and re.search(r'simd_(sum|min|max)_', callee_name(f.blocks[b]['t']) or '')})
+                row[var] = tuple(hs)
+            if any(row.values()):
+                tables.append((sw['block'], row))
+        ctx.floor(f'C03.R7 batch-flush sites in {nm}', len(tables), 2)
+        ref = tables[0][1]
+        for blk, row in tables[1:]:
+            n += 1
+            diff = {v: (ref.get(v), row.get(v)) for v in set(ref) | set(row) if ref.get(v) != row.get(v)}
+            ctx.instance(f'R7/{nm}@{blk}', {'rule': 'C03.R7', 'fn': f.nice, 'differences': {k: [list(a or ()), list(b or ())] for k, (a, b) in diff.items()}})
+            if diff:
+                ctx.finding(f'R7/{nm}', f'{f.nice}: the batch-flush sites disagree on {sorted(diff)}: one of them does not accumulate the batch for that aggregate, so the '
+                            'values of every full batch (or of the last partial batch) are lost', f'{f.file}:{f.blocks[blk]["t"]["l"]}')
+
+
+def _null_not_counted(ctx):
+    from ..engine.paths import loop_headers
+    prog = ctx.prog
+    ctx.rule('C03.R8', 'compute_sum: from the SqlValue::Null arm of the value match the increment of `count` is not reachable without passing the loop head')
+    f = ctx.fn(COL + 'aggregate::compute_sum')
+    g = cfg(f)
+    heads = set(loop_headers(f))
+    cnt = [l for l, n in f.names.items() if n == 'count']
+    ctx.require(len(cnt) == 1, 'compute_sum: counter `count` not found')
+    inc_blocks = set()
+    for bi, b in enumerate(f.blocks):
+        for st in b['s']:
+            if 'd' in st and st['v']['r'] in ('checked', 'bin') and 'Add' in str(st['v'].get('op')):
+                for k in ('a', 'b'):
+                    o = st['v'].get(k)
+                    if isinstance(o, dict) and (o.get('m') or o.get('c') or [None])[0] == cnt[0]:
+                        inc_blocks.add(bi)
+    ctx.require(inc_blocks, 'compute_sum: increment of `count` not found')
+    sws = [sw for sw in enum_switches(prog, f, SV) if 'Null' in sw['arms']]
+    ctx.floor('C03.R8 matches over the summed value', len(sws), 1)
+    for sw in sws:
+        reach = g.reach_from([sw['arms']['Null']], removed=heads)
+        bad = bool(reach & inc_blocks)
+        ctx.instance('R8/compute_sum', {'rule': 'C03.R8', 'null_arm_reaches_the_counter': bad})
+        if bad:
+            ctx.finding('R8/compute_sum', 'compute_sum counts NULL values as summed values: the SUM of a column that is NULL in every qualifying row is 0.0 instead of NULL', f.loc)
 
 
 def _returns_const(f, v):
